@@ -37,7 +37,8 @@ _ZOFTXT = ("R-ZOF (zero-on-failure dataflow `zof`): the listed output objects ar
            "(lattice Z / C(v) / untouched / unknown with branch facts and bottom-up helper summaries). ")
 
 DECODE = [R_CHK, R_OBL, R_RED]
-BOUNDS = [R_CAP, R_RING, R_WRAP]
+R_INB = _rule("R-INB", "r_inb")
+BOUNDS = [R_CAP, R_RING, R_WRAP, R_INB]
 
 ALL_CFG = ["K0", "K1", "K2", "K3"]
 
@@ -70,7 +71,7 @@ _prop("C02", DECODE + [R_FLOW, R_ZOF],
       "BIP-340: " + _DEC + "R-FLOW: msg/msglen flow unmodified from sign_custom / verify through sign_internal and the challenge into sha256_write; "
       "sha256_write's cursor discipline.",
       "byte-for-byte equality with BIP-340, aux=NULL == zero aux, exact acceptance set (hash and curve arithmetic)")
-_prop("C03", DECODE + [R_ZOF],
+_prop("C03", DECODE + [R_ZOF, R_INB],
       "Encodings: " + _DEC,
       "the DER grammar itself (minimal-length / padding predicates over byte values), hybrid parity rule, round-trip equalities")
 _prop("C04", DECODE + [R_FLOW, R_ZOF],
@@ -82,7 +83,8 @@ _prop("C05", [R_FLOW],
       "ALL field / scalar / group / ecmult exactness and cross-configuration bit-identity: statements about 256-bit values, out of reach of static analysis here (declared not applicable for those clauses)")
 _CAPTXT = ("R-CAP (interval analysis `giv`): armed memcpy/memset lengths, variable array indexes and shift amounts stay within the "
            "capacity / width on every path; R-RING: every ring size handed to the Borromean verifier is >= 1; R-WRAP: armed 64-bit "
-           "additions / multiplications of header-derived quantities are range-proved, guarded or post-checked. ")
+           "additions / multiplications of header-derived quantities are range-proved, guarded or post-checked; R-INB (symbolic linear "
+           "guard prover): armed reads of a (pointer, length) input buffer are dominated by a guard establishing length >= offset + bytes read. ")
 _prop("C07", BOUNDS,
       "Untrusted bytes, structural clauses: " + _CAPTXT,
       "general in-bounds / UB-freedom of the proof verifiers (needs relational invariants such as npub = sum rsizes <= 128, outside the interval domain: "
@@ -114,19 +116,19 @@ _prop("C13", [R_ZOF, R_CHK, R_OBL, R_BIND],
 _prop("C14", DECODE + [R_ZOF, R_BIND],
       "ECDSA adaptor: " + _DEC,
       "the adaptor and DLEQ equations, recover(decrypt) identity")
-_prop("C15", DECODE + [R_ZOF],
+_prop("C15", DECODE + [R_ZOF, R_FLOW],
       "Sign-to-contract / anti-exfil: " + _DEC,
       "equality of the two nonce derivations' values, soundness of the commitment")
 _prop("C16", DECODE + BOUNDS,
       "Whitelist: " + _DEC,
       "the ring equation, round-trip")
-_prop("C17", DECODE + BOUNDS,
+_prop("C17", DECODE + BOUNDS + [R_BIND],
       "Half-aggregation: " + _DEC,
       "the aggregate equation, incremental == one-shot equality (arithmetic over 256-bit values)")
 _prop("C18", DECODE + [R_ZOF],
       "ECDH / ElligatorSwift: " + _DEC,
       "agreement of both parties, the map and its inverse (field arithmetic)")
-_prop("C19", DECODE + [R_BIND],
+_prop("C19", DECODE + [R_BIND, R_INB, R_CAP],
       "Bulletproofs++: " + _DEC,
       "completeness / soundness of the norm argument, generator determinism")
 
